@@ -248,6 +248,9 @@ struct Inner {
     mutations: Vec<MutationRec>,
     trace: Option<Vec<String>>,
     trace_paused: bool,
+    /// heap bytes held by the trace, reported to the allocation monitor as harness memory so
+    /// that tracing cannot change a verdict
+    trace_bytes: usize,
     /// per-op call counts (profile), indexed by op
     profile: Vec<[u32; 10]>,
     max_file: u64,
@@ -441,6 +444,9 @@ impl Inner {
                 what(),
                 DONE_NAMES[d as usize]
             ));
+            let n = t.last().map(|x| x.capacity()).unwrap_or(0) + 2 * std::mem::size_of::<String>();
+            self.trace_bytes += n;
+            alloc::harness_bytes_add(n);
         }
     }
 
@@ -460,6 +466,9 @@ impl Inner {
                 what(),
                 h
             ));
+            let n = t.last().map(|x| x.capacity()).unwrap_or(0) + 2 * std::mem::size_of::<String>();
+            self.trace_bytes += n;
+            alloc::harness_bytes_add(n);
         }
         h.to_err()
     }
@@ -518,6 +527,13 @@ impl Inner {
 
     fn mutated(&mut self, kind: Mutation, key: &[u8]) {
         let op = self.cur_op;
+        // one record per run of identical mutations (a 64 KiB wipe at one byte per write would
+        // otherwise grow the harness' own heap by megabytes inside the measured operation)
+        if let Some(last) = self.mutations.last() {
+            if last.op == op && last.kind == kind && last.path.as_bytes() == key {
+                return;
+            }
+        }
         self.mutations.push(MutationRec {
             op,
             kind,
@@ -549,6 +565,7 @@ impl SimFs {
                 mutations: vec![],
                 trace: None,
                 trace_paused: false,
+                trace_bytes: 0,
                 profile: vec![],
                 max_file: MAX_FILE,
                 storage_bytes: 0,
@@ -579,7 +596,10 @@ impl SimFs {
     }
 
     pub fn take_trace(&self) -> Vec<String> {
-        self.inner.borrow_mut().trace.take().unwrap_or_default()
+        let mut i = self.inner.borrow_mut();
+        alloc::harness_bytes_sub(i.trace_bytes);
+        i.trace_bytes = 0;
+        i.trace.take().unwrap_or_default()
     }
 
     /// Starts operation `op`; all completion choices inside it come from `sub_seed`.
